@@ -19,7 +19,7 @@ PY = "/venv/bin/python"
 
 import runner  # noqa: E402
 from pyvc import solver as S  # noqa: E402
-from propmap import PROPS, relevant  # noqa: E402
+from propmap import PROPS, relevant, DEPENDENTS  # noqa: E402
 
 
 def all_tasks():
@@ -33,7 +33,15 @@ def all_tasks():
             mod = __import__("contracts." + modname, fromlist=["all_tasks"])
         except ImportError:
             continue
-        tasks += mod.all_tasks()
+        ts = mod.all_tasks()
+        # a property that speaks about stepping / compiling a network depends on every function that builds
+        # the network and its variables, whichever property the task was first written for
+        extra = DEPENDENTS.get(modname, ())
+        for t in ts:
+            t.stratum = modname
+            if extra and not (modname == "construct_tasks" and tuple(t.props) == ("C09",)):
+                t.props = tuple(t.props) + tuple(p for p in extra if p not in t.props)
+        tasks += ts
     return tasks
 
 
@@ -266,14 +274,14 @@ def main(argv):
 
     # conformance sampler of the assumed ghost view / spec transcription against the real code
     ghostc = None
-    if prop in ("C01", "C02", "C10", "C14") and (tier == "thorough" or prop == "C01"):
+    if prop in ("C01", "C02", "C10", "C14") and (tier == "thorough" or prop == "C01") and not a.no_bounded:
         budget = "120" if tier == "thorough" else "8"
         env = dict(os.environ)
         if REPO != "/repo":
             env["PYTHONPATH"] = os.path.join(REPO, "src") + os.pathsep + env.get("PYTHONPATH", "")
         try:
             p = subprocess.run([PY, os.path.join(HERE, "tools", "ghost_conformance.py"), "--seed", str(seed), "--budget", budget], capture_output=True, text=True, timeout=900, cwd=HERE, env=env)
-            ghostc = {"exit": p.returncode, "summary": (p.stdout.strip().splitlines() or [""])[-1], "disagreements": [l[:300] for l in p.stdout.splitlines() if "!=" in l or "FALSE" in l][:5]}
+            ghostc = {"exit": p.returncode, "summary": (p.stdout.strip().splitlines() or [""])[-1], "disagreements": [l[:300] for l in p.stdout.splitlines() if "!=" in l or "FALSE" in l or "real code raised" in l][:5]}
         except subprocess.TimeoutExpired:
             ghostc = {"exit": None, "summary": "timed out"}
 
